@@ -11,6 +11,9 @@ import (
 	"lvharness/hx"
 )
 
+// gateArr1Zero enables [1]byte{0} values (proposed/C11-bytearray1-zero.md: the decoder rejects the encoder's output)
+const gateArr1Zero = false
+
 type vgen struct {
 	g     *hx.Gen
 	u     *Universe
@@ -92,6 +95,30 @@ func (vg *vgen) gen(d *Desc, depth int) *V {
 		return vg.gen(vg.u.Defs[d.N], depth)
 	case 'E':
 		return vg.gen(d.Sub[0], depth)
+	case 'F':
+		var f float64
+		switch r.Intn(8) {
+		case 0:
+			f = 0
+		case 1:
+			f = 1
+		case 2:
+			f = -1.5
+		case 3:
+			f = math.Inf(1)
+		case 4:
+			f = math.MaxFloat32
+		case 5:
+			f = float64(float32(r.NormFloat64()))
+		case 6:
+			f = math.Copysign(0, -1)
+		default:
+			f = float64(float32(r.NormFloat64() * 1e20))
+		}
+		if d.N == 64 && r.Intn(3) == 0 {
+			f = []float64{math.MaxFloat64, math.SmallestNonzeroFloat64, r.NormFloat64(), math.NaN(), math.Float64frombits(0x7ff0000000000001)}[r.Intn(5)]
+		}
+		return &V{K: 'u', U: math.Float64bits(f)}
 	case 'u':
 		var x uint64
 		switch r.Intn(9) {
@@ -171,6 +198,9 @@ func (vg *vgen) gen(d *Desc, depth int) *V {
 		}
 		if d.N > 0 && r.Intn(6) == 0 {
 			b[0] = 0
+		}
+		if d.N == 1 && b[0] == 0 && !gateArr1Zero {
+			b[0] = byte(1 + r.Intn(255)) // proposed finding bytearray1-zero-not-consumed: gated off
 		}
 		return &V{K: 'x', B: b}
 	case 'T':
@@ -430,6 +460,19 @@ func (P) Generate(g *hx.Gen) {
 		ops = append(ops, encOp(r, v, wt))
 		if b, ok := safeEncode(r, u, v, wt && r.Pre != nil); ok {
 			ops = append(ops, decOp(r, b, wt, true))
+			if g.Rng.Intn(3) == 0 {
+				// the io.Writer entry points on a writer that fails after `cap` bytes
+				caps := []int{0, 1, len(b) - 1, len(b), len(b) + 1, g.Rng.Intn(len(b) + 1)}
+				cp := caps[g.Rng.Intn(len(caps))]
+				if cp < 0 {
+					cp = 0
+				}
+				p, _ := preArg(r, wt)
+				if p == "+" {
+					p = "-"
+				}
+				ops = append(ops, fmt.Sprintf("wenc root=%s ty=%s pre=%s api=%s cap=%d val=%s", sanitize(r.Name), r.Key, p, []string{"E", "W"}[g.Rng.Intn(2)], cp, v.String()))
+			}
 			// the same bytes through the io.Reader entry points: unlimited, limit = len, limit > len (all must round-trip),
 			// and a limit that cuts the input (must be an error, never a panic)
 			ops = append(ops, rdecOp(r, b, wt, "u", randRk(g))+" rt=1")
@@ -456,6 +499,13 @@ func (P) Generate(g *hx.Gen) {
 		g.Count("rt-root:" + sanitize(r.Name))
 		g.Case("rt "+r.Name, ops, vg.nodes >= 8)
 	}
+
+	g.Case("registry", []string{hx.CaseOp("registry"), "regtest"}, true)
+	g.Case("api", []string{hx.CaseOp("api"), "apitest"}, true)
+	genWiden(g, wd, corpus, corpusRoot)
+	genSops(g, corpus)
+	genStateObj(g, wd)
+	genMapKeyOrder(g, wd)
 
 	// (canon) map insertion order
 	var mapRoots []*Root
